@@ -16,7 +16,7 @@ PREIMAGE = "PaymentPreimage"
 COMMIT_MSGS = ("update_add_htlc", "update_fulfill_htlc", "update_fail_htlc", "update_fail_malformed_htlc",
                "update_fee", "commitment_signed")
 CHANNEL_MSGS = COMMIT_MSGS + ("revoke_and_ack",)
-LOCAL_OPS = ("send", "claim", "fail", "fee", "tick", "fwd", "fwdany")
+LOCAL_OPS = ("send", "claim", "fail", "fee", "tick", "fwd", "fwdany", "close")
 
 
 # --------------------------------------------------------------------------- schedules
@@ -91,12 +91,179 @@ def gen_guided(rng):
     return head + " ; " + " ; ".join(ops), {"kind": "guided", "relaxed": relaxed, "deferred": deferred, "n_ops": len(ops)}
 
 
+def _shuffle(rng, xs):
+    xs = list(xs)
+    for i in range(len(xs) - 1, 0, -1):
+        j = rng.below(i + 1)
+        xs[i], xs[j] = xs[j], xs[i]
+    return xs
+
+
+def gen_openflow(rng):
+    """Channel opening under asynchronous persistence: the funding confirmation lands at any point relative to
+    message delivery, disconnect / reconnect and the completion of either side's initial persist; also 0-conf.
+    Short schedules; the judge is 'after everything completes and the peers are connected the channel is usable and
+    nothing that depends on the initial persist left early, channel_ready once per connection'."""
+    relaxed = rng.chance(1, 4)
+    zeroconf = rng.chance(1, 4)
+    ops = []
+    for n in range(2):
+        if rng.chance(3, 5):
+            ops.append("pmode %d async" % n)
+    a, b = (0, 1) if rng.chance(1, 2) else (1, 0)
+    ops.append("open %d %d" % (a, b))
+    body = ["dany %d" % rng.below(3) for _ in range(rng.range(7, 12))]
+    body += ["cany %d" % rng.below(3) for _ in range(rng.range(1, 4))]
+    body += ["confirm"] * rng.range(1, 3)
+    for _ in range(rng.range(0, 2)):
+        body += ["disc 0 1", "reconn 0 1"]
+    body = _shuffle(rng, body)
+    # the handshake needs its first four messages before anything else can happen
+    ops += ["dany 0"] * rng.range(2, 4) + body
+    for _ in range(rng.range(0, 6)):
+        r = rng.below(10)
+        if r < 3:
+            x, y = (0, 1) if rng.chance(1, 2) else (1, 0)
+            ops.append("send %d %d %d" % (x, y, rng.choice([1000000, 3000000])))
+        elif r < 7:
+            ops.append("dany %d" % rng.below(3))
+        elif r < 9:
+            ops.append("cany %d" % rng.below(3))
+        else:
+            ops.append(rng.choice(["disc 0 1", "reconn 0 1", "confirm"]))
+    ops.append("settle")
+    head = "open %s imm%s" % ("relaxed" if relaxed else "strict", " zeroconf" if zeroconf else "")
+    return head + " ; " + " ; ".join(ops), {"kind": "openflow", "relaxed": relaxed, "deferred": False, "n_ops": len(ops)}
+
+
+def gen_shutdown(rng):
+    """Cooperative close under asynchronous persistence: shutdown / closing_signed by funder or fundee, before or
+    after channel_ready, with or without an upfront shutdown script (without: a ShutdownScript monitor update), with
+    HTLCs pending or not."""
+    relaxed = rng.chance(1, 4)
+    noupfront = rng.chance(3, 4)
+    pre_ready = rng.chance(1, 3)
+    ops = []
+    if pre_ready:
+        a, b = (0, 1) if rng.chance(1, 2) else (1, 0)
+        ops.append("open %d %d" % (a, b))
+        ops += ["dany 0"] * 4  # funding broadcast, both monitors persisted synchronously
+        if rng.chance(1, 3):
+            ops.append("confirm")
+            ops += ["dany 0"] * rng.range(0, 2)
+        closer = rng.choice([a, b, a])
+        for n in _shuffle(rng, [0, 1]):
+            if rng.chance(2, 3):
+                ops.append("pmode %d async" % n)
+        ops.append("close %d 0" % closer)
+        nn = 2
+    else:
+        nn = 3
+        for _ in range(rng.range(0, 2)):
+            x, y = rng.choice([(0, 1), (1, 0), (0, 2), (2, 1), (1, 2)])
+            ops.append("send %d %d %d" % (x, y, rng.choice([1000000, 3000000])))
+            ops += ["dany %d" % rng.below(4) for _ in range(rng.range(0, 8))]
+        for n in _shuffle(rng, [0, 1, 2]):
+            if rng.chance(1, 2):
+                ops.append("pmode %d async" % n)
+        closer = rng.below(3)
+        ops.append("close %d %d" % (closer, rng.below(2)))
+    for _ in range(rng.range(8, 24)):
+        r = rng.below(100)
+        if r < 50:
+            ops.append("dany %d" % rng.below(5))
+        elif r < 72:
+            ops.append("cany %d" % rng.below(5))
+        elif r < 78:
+            ops.append("close %d %d" % (rng.below(nn), rng.below(2)))
+        elif r < 84:
+            ops.append("fwdany %d" % rng.below(3))
+        elif r < 90:
+            ops.append("claim %d %d" % (rng.below(nn), rng.below(2)))
+        elif r < 94:
+            x, y = rng.choice([(0, 1), (1, 0)] if nn == 2 else [(0, 1), (1, 2)])
+            ops.append("disc %d %d" % (x, y))
+        elif r < 98:
+            x, y = rng.choice([(0, 1), (1, 0)] if nn == 2 else [(0, 1), (1, 2)])
+            ops.append("reconn %d %d" % (x, y))
+        else:
+            ops.append("confirm" if pre_ready else "dany 0")
+    ops.append("settle")
+    head = "%s %s imm%s" % ("open" if pre_ready else "steady", "relaxed" if relaxed else "strict", " noupfront" if noupfront else "")
+    return head + " ; " + " ; ".join(ops), {"kind": "shutdown", "relaxed": relaxed, "deferred": False, "n_ops": len(ops)}
+
+
+def gen_blocked(rng):
+    """Two or more BLOCKED monitor updates on one channel, then a claim / more traffic on it. The forwarding node
+    B stops handling its events: the unhandled PaymentSent / PaymentForwarded keeps the next revoke_and_ack update of
+    the channel the preimage came from blocked; further commitment_signed / revoke_and_ack updates queue behind it;
+    then a preimage for an inbound HTLC on that very channel arrives (its update must jump the whole queue and take
+    the id of the FIRST blocked update), more traffic is queued, and finally the events are handled."""
+    relaxed = rng.chance(1, 4)
+    ops = []
+    far = rng.choice([2, 0])       # the channel B<->far gets the blocked queue
+    near = 2 - far                 # the other neighbour of B
+    # p1: B pays far directly (its PaymentSent will be the blocker); p2: far -> near via B (claimed later by near)
+    ops.append("evhold 1 on")
+    ops.append("send 1 %d %d" % (far, rng.choice([1000000, 3000000])))
+    ops.append("send %d %d %d" % (far, near, rng.choice([1000000, 3000000])))
+    if rng.chance(1, 2):
+        ops.append("send %d %d %d" % (far, near, 2000000))
+    for _ in range(30):
+        ops.append("dany 0")
+        if rng.chance(1, 3):
+            ops.append("fwdany 0")
+    ops += ["fwdany 0", "fwdany 0", "dany 0", "dany 0", "dany 0", "dany 0", "dany 0", "dany 0", "fwdany 0"]
+    if rng.chance(1, 2):
+        ops.append("pmode 1 async")
+    # far claims p1; B gets the preimage (PaymentSent stays unhandled) and the dance ends with a blocked RAA update
+    ops += ["claim %d 0" % far, "deliver %d 1" % far, "deliver %d 1" % far]
+    if rng.chance(1, 2):
+        ops.append("cany 0")
+    ops += ["deliver 1 %d" % far, "deliver 1 %d" % far, "deliver %d 1" % far, "cany 0", "cany 0", "deliver 1 %d" % far, "deliver %d 1" % far]
+    # more traffic from far: its commitment_signed update queues behind the blocked one
+    for _ in range(rng.range(1, 3)):
+        ops.append("send %d 1 %d" % (far, rng.choice([1000000, 2000000])))
+        ops += ["deliver %d 1" % far, "deliver %d 1" % far]
+        if rng.chance(1, 2):
+            ops += ["cany 0", "deliver 1 %d" % far, "deliver 1 %d" % far, "deliver %d 1" % far]
+    # near claims p2: B learns the preimage and must persist it on the blocked channel right away
+    ops += ["claim %d 0" % near, "deliver %d 1" % near]
+    if rng.chance(1, 2):
+        ops += ["claim %d 0" % near, "deliver %d 1" % near]
+    for _ in range(rng.range(4, 16)):
+        r = rng.below(10)
+        if r < 5:
+            ops.append("dany %d" % rng.below(5))
+        elif r < 7:
+            ops.append("cany %d" % rng.below(5))
+        elif r < 8:
+            ops.append("claim %d %d" % (rng.below(3), rng.below(2)))
+        elif r < 9:
+            ops.append("send %d 1 1000000" % far)
+        else:
+            ops.append("fwdany %d" % rng.below(3))
+    ops.append(rng.choice(["evhold 1 off", "events 1"]))
+    for _ in range(rng.range(2, 10)):
+        ops.append(rng.choice(["dany %d" % rng.below(5), "cany %d" % rng.below(5), "fwdany 0"]))
+    ops.append("settle")
+    head = "steady %s imm" % ("relaxed" if relaxed else "strict")
+    return head + " ; " + " ; ".join(ops), {"kind": "blocked", "relaxed": relaxed, "deferred": False, "n_ops": len(ops)}
+
+
 def gen_schedule(rng, kind=None):
     """One schedule line for h_monupd. Returns (line, meta)."""
     if kind is None:
-        if rng.chance(2, 5):
+        r = rng.below(100)
+        if r < 28:
             return gen_guided(rng)
-        kind = "open" if rng.chance(1, 5) else "steady"
+        if r < 42:
+            return gen_blocked(rng)
+        if r < 58:
+            return gen_openflow(rng)
+        if r < 70:
+            return gen_shutdown(rng)
+        kind = "open" if rng.chance(1, 4) else "steady"
     relaxed = rng.chance(1, 4)
     # TestChainMonitor::update_channel needs the monitor to be registered, which in deferred mode happens only at
     # the first flush: channel opening is explored in immediate mode only
@@ -179,7 +346,7 @@ def gen_schedule(rng, kind=None):
             else:
                 ops.append("dany %d" % rng.below(6))
         elif r < 97:
-            ops.append("completeall %d" % node())
+            ops.append(rng.choice(["completeall %d" % node(), "evhold %d on" % node(), "evhold %d off" % node(), "events %d" % node()]))
         elif r < 98 and rng.chance(1, 3):
             ops.append("fc %d %d" % (node(), rng.below(2)))
         else:
@@ -266,6 +433,8 @@ class ChanState:
         self.fwd_claim_updates = []   # preimage updates created by a downstream fulfill (forwarded claims)
         self.n_payment_forwarded = 0
         self.htlc = {}            # payment tag -> stage of an inbound HTLC on this channel (see judge b3)
+        self.SH = []              # ids of updates with a ShutdownScript step
+        self.last_cr_epoch = None
 
 
 def judge_trace(trace):
@@ -287,6 +456,8 @@ def judge_trace(trace):
     claimed_ops = set()
     expected_close = set()
     fc_seen = False
+    coop_seen = False
+    pre_ready_shutdown = False
 
     def st(n, chan):
         k = (n, chan)
@@ -306,7 +477,12 @@ def judge_trace(trace):
         k = rec["step"]
         op = rec["op"].split()
         if rec.get("panic"):
-            bad("panic", k, "library panicked: " + rec["panic"][:300])
+            # Known finding F2: monitor_updating_restored asserts that monitor_pending_channel_ready can only be set
+            # on an inbound or 0-conf channel; a ShutdownScript update in progress on an OUTBOUND channel whose funding
+            # then reaches its depth sets it too.
+            f2 = "Funding transaction broadcast by the local client before it should have" in rec["panic"] and pre_ready_shutdown
+            bad("panic", k, "library panicked: " + rec["panic"][:300],
+                key="F2-panic-restored-outbound-channel_ready-pending-after-pre-ready-shutdown" if f2 else None)
         for v in rec["v"]:
             peer_of[(v["n"], v["chan"])] = v["peer"]
             s = st(v["n"], v["chan"])
@@ -321,6 +497,12 @@ def judge_trace(trace):
             epoch[key] = epoch.get(key, 0) + 1
         if op[0] == "fc" and rec["applied"]:
             fc_seen = True
+        if op[0] == "close" and rec["applied"]:
+            coop_seen = True
+            fc_seen = True  # a cooperative close may race with a disconnection and end in errors for that channel
+            if any("ShutdownScript" in w[3] and not v.get("ready", True) for w in rec["w"] for v in rec["v"]
+                   if v["n"] == w[0] and v["chan"] == w[1]):
+                pre_ready_shutdown = True
         for e in rec["errs"]:
             # the library disconnects a peer that owes a response for two timer ticks: an ordinary disconnection
             if "Disconnecting due to timeout awaiting response" in e:
@@ -375,6 +557,8 @@ def judge_trace(trace):
                     s.S.append(i)
                 elif kd == "ChannelForceClosed":
                     s.closed = True
+                elif kd == "ShutdownScript":
+                    s.SH.append(i)
         # ---- persister-level calls: verdicts; in deferred mode the order must be the watch order
         for (n, chan, i, new, inprog, _seq) in rec["p"]:
             s = st(n, chan)
@@ -490,6 +674,19 @@ def judge_trace(trace):
                     bad("d", k, "node %d chan %s released %s first, but the update stream created the %s first (holder-commitment step in update %d, counterparty-commitment step in update %d)" % (
                         n, chan, "revoke_and_ack" if i_raa < i_cs else "commitment_signed",
                         "revoke_and_ack" if raa_first_expected else "commitment_signed", s.H[-1], s.K[-1]))
+            # (b6) closing_signed lets the peer complete and broadcast a closing transaction paying our shutdown script:
+            # it depends on the ShutdownScript update (and all earlier ones). The shutdown message itself deliberately
+            # does not (comment in ChannelManager::internal_shutdown).
+            if "closing_signed" in kinds and s.SH and not all_done_upto(s, s.SH[-1]):
+                bad("b", k, "node %d chan %s released closing_signed while update(s) %s (<= %d, the ShutdownScript update) are still in progress" % (
+                    n, chan, sorted(i for i in s.outstanding if i <= s.SH[-1]), s.SH[-1]))
+            if "closing_signed" in kinds and s.initial_pending:
+                bad("b", k, "node %d chan %s released closing_signed before the initial ChannelMonitor persist completed" % (n, chan))
+            # (d1') channel_ready goes out once per connection
+            if "channel_ready" in kinds:
+                if kinds.count("channel_ready") > 1 or s.last_cr_epoch == ep:
+                    bad("d", k, "node %d chan %s released channel_ready twice without reconnecting" % (n, chan))
+                s.last_cr_epoch = ep
             # (b4) channel_ready depends on the initial monitor persist. (funding_signed deliberately does not: the
             # fundee cannot lose money on a funding transaction it has not accepted payment from yet; see the comment
             # in ChannelManager::internal_funding_created. The property text does not list funding_signed either.)
@@ -622,6 +819,10 @@ def judge_trace(trace):
             closed_by_peer = any(name == "ChannelClosed" and detail.startswith(chan) for r in steps for (_, name, detail) in r["e"])
             if closed_by_peer:
                 continue
+            if s.SH or (coop_seen and any(m[2] == "shutdown" and m[3] == chan for r in steps for m in r["m"])):
+                # a channel in shutdown: still must complete its updates and release what it owes (checked below), but
+                # it is allowed to disappear
+                pass
             if s.outstanding or s.initial_pending:
                 bad("d", last_step, "node %d chan %s: updates %s never completed although the schedule completes everything" % (n, chan, sorted(s.outstanding)))
             for lst, rel, what in ((s.K, s.cs_steps, "commitment_signed"), (s.H, s.raa_steps, "revoke_and_ack")):
